@@ -4,7 +4,7 @@
 //! The harness drives and logs; TLC judges (TraceSyncProp / TraceSyncImpl / TraceHB).
 
 use crate::common::*;
-use crate::seq::{ArenaX, build};
+use crate::seq::{ArenaX, build, options_of};
 use crate::with_type;
 use rarena_allocator::{
   Allocator, Error, sync,
@@ -39,6 +39,8 @@ struct St {
   idle_steps: Vec<u64>,
   handles: BTreeMap<u32, SendHandle>,
   addrs: Option<vh::Addrs>,
+  // further mappings of the same file (two_maps mode): the same offsets at other addresses
+  more_addrs: Vec<vh::Addrs>,
 }
 
 struct Ctl {
@@ -110,10 +112,20 @@ fn locate(a: &vh::Addrs, addr: usize) -> (String, i64) {
 }
 
 fn describe(e: &AtomicEvent, st: &St) -> Value {
-  let (loc, off) = match &st.addrs {
+  let (mut loc, mut off) = match &st.addrs {
     Some(a) => locate(a, e.addr),
     None => ("?".into(), -1),
   };
+  if loc == "other" {
+    for a in &st.more_addrs {
+      let (l2, o2) = locate(a, e.addr);
+      if l2 != "other" {
+        loc = l2;
+        off = o2;
+        break;
+      }
+    }
+  }
   let wide = e.width == 8 && (loc == "sent" || loc == "node");
   let val = |v: u64| if wide { word(v) } else { json!(sat(v)) };
   json!({"loc": loc, "off": off, "kind": kind_name(e.kind), "a0": val(e.arg0), "a1": val(e.arg1),
@@ -444,15 +456,35 @@ fn run_driver(d: &Value, out: &mut impl Write, workdir: &str) -> bool {
   // own_clones: every thread works through its own arena value and drops it itself; the main value goes away
   // before the threads start, so the last thread to drop unmounts the memory (C12 / C13 teardown)
   let own_clones = cfg["own_clones"].as_bool().unwrap_or(false);
+  // two_maps: every thread but the first works through its OWN mapping of the same file (a second map_mut of the path,
+  // as another process would have): same offsets, other addresses -- nothing in the file may depend on an address
+  let two_maps = cfg["two_maps"].as_bool().unwrap_or(false) && file.is_some();
+  let events_before_maps = ctl().m.lock().unwrap().events.len();
   let thread_arenas: Vec<usize> = (0..nthreads)
-    .map(|_| {
+    .map(|t| {
       if own_clones {
         Box::into_raw(Box::new(arena.clone())) as usize
+      } else if two_maps && t > 0 {
+        let a2: sync::Arena = unsafe {
+          options_of(cfg)
+            .with_read(true)
+            .with_write(true)
+            .map_mut::<sync::Arena, _>(file.as_ref().unwrap())
+            .expect("second mapping of the arena file")
+        };
+        let a2: &'static sync::Arena = Box::leak(Box::new(a2));
+        ctl().m.lock().unwrap().more_addrs.push(a2.verif_addrs());
+        a2 as *const _ as usize
       } else {
         arena as *const _ as usize
       }
     })
     .collect();
+  if two_maps {
+    // the opens above are not part of the run
+    ctl().m.lock().unwrap().events.truncate(events_before_maps);
+    let _ = take_api();
+  }
   let setup_events = std::mem::take(&mut ctl().m.lock().unwrap().events);
   writeln!(
     out,
